@@ -153,7 +153,9 @@ theorem foldl_ev {α : Type} (f : Streams → α → Streams) (hf : ∀ s x, Ev 
   | cons a l ih => intro s; exact .trans (hf s a) (ih _)
 
 theorem dropPromise_ev (s : Streams) (promise : Nat) :
-    Ev s ((s.modStream promise fun st => { st with isPendingAccept := false }).transition promise fun s => (s.maybeCancel promise, ())).1 := by
+    Ev s ((s.modStream promise fun st => { st with isPendingAccept := false }).transition promise fun s =>
+            (if ((s.maybeCancel promise).stream promise).refCount == 0 then (s.maybeCancel promise).releaseClosedCapacity promise
+             else s.maybeCancel promise, ())).1 := by
   refine .trans (.acceptFlag promise false) ?_
   ev_auto
 
@@ -165,7 +167,9 @@ theorem dropStreamRef_ev (s : Streams) (id : Nat) : Ev s (s.dropStreamRef id) :=
   · intro s5
     split
     · show Ev s5 (List.foldl _ _ _)
-      have hf : ∀ (s : Streams) (p : Nat), Ev s ((s.modStream p fun st => { st with isPendingAccept := false }).transition p fun s => (s.maybeCancel p, ())).1 :=
+      have hf : ∀ (s : Streams) (p : Nat), Ev s ((s.modStream p fun st => { st with isPendingAccept := false }).transition p fun s =>
+            (if ((s.maybeCancel p).stream p).refCount == 0 then (s.maybeCancel p).releaseClosedCapacity p
+             else s.maybeCancel p, ())).1 :=
         fun s p => dropPromise_ev s p
       refine Ev.trans ?_ (foldl_ev _ hf _ _)
       refine Ev.trans ?_ (modStream_ev _ _ _ ?_)
